@@ -5,6 +5,18 @@
 // CanHandleEvent, HandleEvent).  The cron scheduler is never started: a firing is the
 // direct call of every controller's CanHandleEvent/HandleEvent with the crontab, and which
 // crontab each registered cron entry sends is read by running the entry's job once.
+//
+// Crontabs are real strings.  Every case has its own table of crontab strings (Input.Strings);
+// bindings and operations refer to a string by its index.  The tables contain different
+// spellings of one schedule (double spaces, tabs, leading/trailing whitespace, other text
+// for the same schedule, letter case of names) and strings whose validity depends on the
+// exact spelling; whether a string is parsable is asked of the real cron.Parse.  Strings the
+// implementation comes up with on its own (keys of Entries, what a cron job sends) are
+// appended to the table, so the Coq side compares them as what they are.
+// Firing path: Tick n runs the job of the n-th registered cron entry, receives what it
+// sends on the schedule channel and hands that string to every controller the way
+// hook.Manager.HandleScheduleEvent does (CanHandleEvent, then HandleEvent); TickAll does so
+// for every registered cron entry once.
 package c11
 
 import (
@@ -16,6 +28,7 @@ import (
 	"time"
 
 	"github.com/deckhouse/deckhouse/pkg/log"
+	"gopkg.in/robfig/cron.v2"
 
 	"github.com/flant/shell-operator/pkg/hook/controller"
 	htypes "github.com/flant/shell-operator/pkg/hook/types"
@@ -27,7 +40,7 @@ import (
 
 type Binding struct {
 	Id      int   `json:"id"`
-	Crontab int   `json:"crontab"`
+	Crontab int   `json:"crontab"` // index into Input.Strings
 	Name    int   `json:"name"`
 	Group   int   `json:"group"` // 0 = ""
 	AF      bool  `json:"af"`
@@ -36,26 +49,29 @@ type Binding struct {
 }
 
 type Op struct {
-	Kind string `json:"kind"` // Add Remove Enable Disable Fire
-	C    int    `json:"c,omitempty"`
+	Kind string `json:"kind"` // Add Remove Enable Disable Fire Tick TickAll
+	C    int    `json:"c"`      // Add/Remove/Fire: index into Input.Strings
 	I    int    `json:"i,omitempty"`
 	H    int    `json:"h"`
+	N    int    `json:"n,omitempty"` // Tick: position of the cron entry
 }
 
 type Input struct {
-	Hooks [][]Binding `json:"hooks"`
-	Ops   []Op        `json:"ops"`
+	Strings []string    `json:"strings"` // the case's crontab strings
+	Hooks   [][]Binding `json:"hooks"`
+	Ops     []Op        `json:"ops"`
 }
 
 type EntryObs struct {
-	C       int   `json:"c"`
+	C       int   `json:"c"` // index into the alphabet (= Strings ++ Extra)
 	Present bool  `json:"present"`
 	EntryID int   `json:"entry_id"`
 	Ids     []int `json:"ids"`
 }
 type CronObs struct {
-	ID int `json:"id"`
-	C  int `json:"c"`
+	ID   int    `json:"id"`
+	C    int    `json:"c"`
+	Sent string `json:"sent"` // the string itself, for the reader of a replay file
 }
 type InfoObs struct {
 	Name       int   `json:"name"`
@@ -78,23 +94,35 @@ type Obs struct {
 	Fire    []FireObs  `json:"fire"`
 }
 type Observation struct {
-	Steps []Obs `json:"steps"`
+	Steps   []Obs    `json:"steps"`
+	Extra   []string `json:"extra"`   // strings seen in the implementation that are not in Input.Strings
+	Invalid []int    `json:"invalid"` // indices (alphabet) of the strings the real cron.Parse rejects
 }
-
-// crontab numbers: 1..3 parsable, 4 rejected by cron.Parse
-var crontabs = map[int]string{1: "* * * * *", 2: "*/5 * * * *", 3: "0 * * * *", 4: "not a crontab"}
-var alphabet = []int{1, 2, 3, 4}
-var invalid = []int{4}
 
 const anomaly = 999999
 
-func crontabNo(s string) int {
-	for n, c := range crontabs {
-		if c == s {
-			return n
+// families of spellings; the first of each family is the canonical single-spaced text
+var families = [][]string{
+	{"* * * * *", "*  * * * *", " * * * * *", "* * * * * ", "*\t* * * *", "*/1 * * * *"},
+	{"*/5 * * * *", "*/5  *  *  *  *", "\t*/5 * * * *", "*/5 * * * *  "},
+	{"0 * * * *", "0 *  * * *", "@hourly", "0 0 * * * *"},
+	{"* * * * * *", "*  * * * * *", "  * * * * * *", "* * * * *\t*"},
+	{"30 2 * * MON", "30 2 * * mon", "30  2 * * MON", "30 2 * * 1"},
+}
+
+// rejected by cron.Parse; some only because of their spelling ("@hourly" is fine)
+var unparsable = []string{"not a crontab", "not  a crontab", "* * * *", "", "@hourly ", " @hourly", "@Hourly", "*  * * *"}
+
+func wsNorm(s string) string { return strings.Join(strings.Fields(s), " ") }
+
+func parsable(s string) (ok bool) {
+	defer func() {
+		if recover() != nil {
+			ok = false
 		}
-	}
-	return anomaly
+	}()
+	_, err := cron.Parse(s)
+	return err == nil
 }
 
 func name(prefix string, n int) string {
@@ -129,11 +157,23 @@ func unnames(prefix string, ss []string) []int {
 	return r
 }
 
-func entry(c, i int) smtypes.ScheduleEntry {
-	return smtypes.ScheduleEntry{Crontab: crontabs[c], Id: strconv.Itoa(i)}
+func (in Input) str(c int) string {
+	if c >= 0 && c < len(in.Strings) {
+		return in.Strings[c]
+	}
+	return "bad-index-" + strconv.Itoa(c)
+}
+
+type rawStep struct {
+	entries []schedulemanager.VerifC11Entry
+	cron    []schedulemanager.VerifC11CronEntry
+	fire    []FireObs
 }
 
 func Run(in Input) Observation {
+	entry := func(c, i int) smtypes.ScheduleEntry {
+		return smtypes.ScheduleEntry{Crontab: in.str(c), Id: strconv.Itoa(i)}
+	}
 	sm := schedulemanager.NewScheduleManager(context.Background(), log.NewNop())
 	type ctl = controller.ScheduleBindingsController
 	var ctls []ctl
@@ -155,9 +195,46 @@ func Run(in Input) Observation {
 		c.WithScheduleManager(sm)
 		ctls = append(ctls, c)
 	}
-	var out Observation
+	infosOf := func(infos []controller.BindingExecutionInfo) []InfoObs {
+		res := []InfoObs{}
+		for _, info := range infos {
+			io := InfoObs{Name: unname("b", info.Binding), Group: unname("g", info.Group), AF: info.AllowFailure,
+				Snaps: unnames("s", info.IncludeSnapshots), Queue: unname("q", info.QueueName),
+				BcName: anomaly, BcSnaps: []int{}}
+			if len(info.BindingContext) == 1 && !info.IncludeAllSnapshots {
+				bc := info.BindingContext[0]
+				io.BcName = unname("b", bc.Binding)
+				io.BcSchedule = bc.Metadata.BindingType == htypes.Schedule
+				io.BcSnaps = unnames("s", bc.Metadata.IncludeSnapshots)
+				io.BcGroup = unname("g", bc.Metadata.Group)
+			}
+			res = append(res, io)
+		}
+		return res
+	}
+	// the controller ranges over a map: present its answer in a stable order
+	stable := func(f *FireObs) {
+		sort.SliceStable(f.Infos, func(i, j int) bool { return fmt.Sprint(f.Infos[i]) < fmt.Sprint(f.Infos[j]) })
+	}
+	// hook.Manager.HandleScheduleEvent(crontab): every hook whose controller can handle it
+	dispatch := func(crontab string, fire []FireObs) {
+		for h, c := range ctls {
+			if c.CanHandleEvent(crontab) {
+				fire[h].Can = true
+				fire[h].Infos = append(fire[h].Infos, infosOf(c.HandleEvent(crontab))...)
+			}
+		}
+	}
+	blank := func() []FireObs {
+		fire := make([]FireObs, len(ctls))
+		for h := range fire {
+			fire[h].Infos = []InfoObs{}
+		}
+		return fire
+	}
+	var raw []rawStep
 	for _, op := range in.Ops {
-		o := Obs{Entries: []EntryObs{}, Cron: []CronObs{}, Fire: []FireObs{}}
+		st := rawStep{fire: []FireObs{}}
 		switch op.Kind {
 		case "Add":
 			sm.Add(entry(op.C, op.I))
@@ -173,32 +250,68 @@ func Run(in Input) Observation {
 			}
 		case "Fire":
 			for _, c := range ctls {
-				f := FireObs{Can: c.CanHandleEvent(crontabs[op.C]), Infos: []InfoObs{}}
-				for _, info := range c.HandleEvent(crontabs[op.C]) {
-					io := InfoObs{Name: unname("b", info.Binding), Group: unname("g", info.Group), AF: info.AllowFailure,
-						Snaps: unnames("s", info.IncludeSnapshots), Queue: unname("q", info.QueueName),
-						BcName: anomaly, BcSnaps: []int{}}
-					if len(info.BindingContext) == 1 && !info.IncludeAllSnapshots {
-						bc := info.BindingContext[0]
-						io.BcName = unname("b", bc.Binding)
-						io.BcSchedule = bc.Metadata.BindingType == htypes.Schedule
-						io.BcSnaps = unnames("s", bc.Metadata.IncludeSnapshots)
-						io.BcGroup = unname("g", bc.Metadata.Group)
-					}
-					f.Infos = append(f.Infos, io)
-				}
-				// the controller ranges over a map: present its answer in a stable order
-				sort.SliceStable(f.Infos, func(i, j int) bool {
-					return fmt.Sprint(f.Infos[i]) < fmt.Sprint(f.Infos[j])
-				})
-				o.Fire = append(o.Fire, f)
+				f := FireObs{Can: c.CanHandleEvent(in.str(op.C)), Infos: infosOf(c.HandleEvent(in.str(op.C)))}
+				st.fire = append(st.fire, f)
+			}
+		case "Tick":
+			// the job of the n-th registered cron entry runs; what it sends is dispatched
+			_, cronEntries := sm.VerifC11Snapshot()
+			if op.N >= 0 && op.N < len(cronEntries) {
+				st.fire = blank()
+				dispatch(cronEntries[op.N].Fires, st.fire)
+			}
+		case "TickAll":
+			_, cronEntries := sm.VerifC11Snapshot()
+			st.fire = blank()
+			for _, e := range cronEntries {
+				dispatch(e.Fires, st.fire)
 			}
 		}
-		entries, cronEntries := sm.VerifC11Snapshot()
-		for _, c := range alphabet {
+		for h := range st.fire {
+			stable(&st.fire[h])
+		}
+		st.entries, st.cron = sm.VerifC11Snapshot()
+		raw = append(raw, st)
+	}
+	// the alphabet: the case's strings and whatever else the implementation used
+	out := Observation{Extra: []string{}, Invalid: []int{}}
+	index := map[string]int{}
+	var alphabet []string
+	add := func(s string) {
+		if _, ok := index[s]; !ok {
+			index[s] = len(alphabet)
+			alphabet = append(alphabet, s)
+			if len(alphabet) > len(in.Strings) {
+				out.Extra = append(out.Extra, s)
+			}
+		}
+	}
+	for _, s := range in.Strings {
+		if _, dup := index[s]; dup { // a table must not repeat a string; keep positions aligned anyway
+			alphabet = append(alphabet, s)
+			continue
+		}
+		add(s)
+	}
+	for _, st := range raw {
+		for _, e := range st.entries {
+			add(e.Crontab)
+		}
+		for _, e := range st.cron {
+			add(e.Fires)
+		}
+	}
+	for i, s := range alphabet {
+		if !parsable(s) {
+			out.Invalid = append(out.Invalid, i)
+		}
+	}
+	for _, st := range raw {
+		o := Obs{Entries: []EntryObs{}, Cron: []CronObs{}, Fire: st.fire}
+		for c, s := range alphabet {
 			eo := EntryObs{C: c, Ids: []int{}}
-			for _, e := range entries {
-				if e.Crontab == crontabs[c] {
+			for _, e := range st.entries {
+				if e.Crontab == s {
 					eo.Present = true
 					eo.EntryID = e.EntryID
 					for _, id := range e.Ids {
@@ -213,8 +326,8 @@ func Run(in Input) Observation {
 			}
 			o.Entries = append(o.Entries, eo)
 		}
-		for _, e := range cronEntries {
-			o.Cron = append(o.Cron, CronObs{ID: e.EntryID, C: crontabNo(e.Fires)})
+		for _, e := range st.cron {
+			o.Cron = append(o.Cron, CronObs{ID: e.EntryID, C: index[e.Fires], Sent: e.Fires})
 		}
 		out.Steps = append(out.Steps, o)
 	}
@@ -223,22 +336,28 @@ func Run(in Input) Observation {
 
 // ---- rendering ----
 
+func sname(c int) string { return fmt.Sprintf("s%d", c) }
+
 func coqBinding(b Binding) string {
-	return fmt.Sprintf("Bd %d %d %d %d %s %s %d", b.Id, b.Crontab, b.Name, b.Group, core.CoqBool(b.AF),
+	return fmt.Sprintf("Bd %d %s %d %d %s %s %d", b.Id, sname(b.Crontab), b.Name, b.Group, core.CoqBool(b.AF),
 		core.CoqList(b.Snaps, core.CoqN), b.Queue)
 }
 func coqOp(o Op) string {
 	switch o.Kind {
 	case "Add":
-		return fmt.Sprintf("OAdd %d %d", o.C, o.I)
+		return fmt.Sprintf("OAdd %s %d", sname(o.C), o.I)
 	case "Remove":
-		return fmt.Sprintf("ORemove %d %d", o.C, o.I)
+		return fmt.Sprintf("ORemove %s %d", sname(o.C), o.I)
 	case "Enable":
 		return fmt.Sprintf("OEnable %d", o.H)
 	case "Disable":
 		return fmt.Sprintf("ODisable %d", o.H)
+	case "Tick":
+		return fmt.Sprintf("OTick %d", o.N)
+	case "TickAll":
+		return "OTickAll"
 	}
-	return fmt.Sprintf("OFire %d", o.C)
+	return fmt.Sprintf("OFire %s", sname(o.C))
 }
 func coqInfo(i InfoObs) string {
 	return fmt.Sprintf("Inf %d %d %s %s %d %d %s %s %d", i.Name, i.Group, core.CoqBool(i.AF), core.CoqList(i.Snaps, core.CoqN),
@@ -247,64 +366,154 @@ func coqInfo(i InfoObs) string {
 func coqObs(o Obs) string {
 	ents := core.CoqList(o.Entries, func(e EntryObs) string {
 		if !e.Present {
-			return fmt.Sprintf("(%d, None)", e.C)
+			return fmt.Sprintf("(%s, None)", sname(e.C))
 		}
-		return fmt.Sprintf("(%d, Some (%d, %s))", e.C, e.EntryID, core.CoqList(e.Ids, core.CoqN))
+		return fmt.Sprintf("(%s, Some (%d, %s))", sname(e.C), e.EntryID, core.CoqList(e.Ids, core.CoqN))
 	})
-	cr := core.CoqList(o.Cron, func(c CronObs) string { return fmt.Sprintf("(%d, %d)", c.ID, c.C) })
+	cr := core.CoqList(o.Cron, func(c CronObs) string { return fmt.Sprintf("(%d, %s)", c.ID, sname(c.C)) })
 	fi := core.CoqList(o.Fire, func(f FireObs) string {
 		return fmt.Sprintf("(%s, %s)", core.CoqBool(f.Can), core.CoqList(f.Infos, coqInfo))
 	})
 	return fmt.Sprintf("mkObs %s %s %s", ents, cr, fi)
 }
-func coqInput(in Input) string {
+
+// every index a case refers to must have a name bound by the lets
+func maxIndex(in Input) int {
+	m := len(in.Strings) - 1
+	for _, bs := range in.Hooks {
+		for _, b := range bs {
+			if b.Crontab > m {
+				m = b.Crontab
+			}
+		}
+	}
+	for _, o := range in.Ops {
+		if (o.Kind == "Add" || o.Kind == "Remove" || o.Kind == "Fire") && o.C > m {
+			m = o.C
+		}
+	}
+	return m
+}
+
+func coqInput(in Input, alphabet []string, invalid []int) string {
 	hooks := core.CoqList(in.Hooks, func(bs []Binding) string { return core.CoqList(bs, coqBinding) })
-	return fmt.Sprintf("mkIn %s %s %s\n   %s", hooks, core.CoqList(invalid, core.CoqN), core.CoqList(alphabet, core.CoqN),
+	idx := make([]int, len(alphabet))
+	for i := range idx {
+		idx[i] = i
+	}
+	return fmt.Sprintf("mkIn %s %s %s\n   %s", hooks, core.CoqList(invalid, sname), core.CoqList(idx, sname),
 		core.CoqList(in.Ops, coqOp))
 }
 
 func Render(in Input, obs *Observation, crash string) core.Case {
 	var steps []Obs
+	alphabet := append([]string{}, in.Strings...)
+	for i := len(alphabet); i <= maxIndex(in); i++ {
+		alphabet = append(alphabet, in.str(i))
+	}
+	invalid := []int{}
 	if obs != nil {
 		steps = obs.Steps
+		alphabet = append(alphabet, obs.Extra...)
+		invalid = obs.Invalid
 	}
 	c := core.Case{}
-	c.Coq = fmt.Sprintf("(%s,\n  %s)", coqInput(in), core.CoqList(steps, coqObs))
-	c.JSON = map[string]any{"steps": steps, "crash": crash}
-	c.Key = coqInput(in)
+	var lets strings.Builder
+	for i, s := range alphabet {
+		lit := core.CoqBytes(s)
+		if s == "" {
+			lit = "(@nil N)"
+		}
+		fmt.Fprintf(&lets, "let %s := %s in ", sname(i), lit)
+	}
+	c.Coq = fmt.Sprintf("(%s\n (%s,\n  %s))", lets.String(), coqInput(in, alphabet, invalid), core.CoqList(steps, coqObs))
+	c.JSON = map[string]any{"steps": steps, "alphabet": alphabet, "invalid": invalid, "crash": crash}
+	c.Key = fmt.Sprintf("%q %s", in.Strings, coqInput(in, in.Strings, nil))
+
+	// which strings does the case use, and how are they spelled
+	used := map[int]bool{}
 	kinds := map[string]bool{}
-	usesInvalid := false
 	for _, o := range in.Ops {
 		kinds[o.Kind] = true
 		c.Tags = append(c.Tags, "op:"+o.Kind)
-		if (o.Kind == "Add" || o.Kind == "Remove" || o.Kind == "Fire") && o.C == 4 {
-			usesInvalid = true
+		if o.Kind == "Add" || o.Kind == "Remove" || o.Kind == "Fire" {
+			used[o.C] = true
 		}
 	}
 	dupIds := false
 	seen := map[int]bool{}
 	nb := 0
-	for _, bs := range in.Hooks {
+	bindingNoncanonical, inOneHook, acrossHooks := false, false, false
+	type hs struct {
+		hook int
+		s    string
+	}
+	var spelled []hs
+	for h, bs := range in.Hooks {
 		for _, b := range bs {
 			nb++
 			if seen[b.Id] || b.Id <= 4 {
 				dupIds = true
 			}
 			seen[b.Id] = true
-			if b.Crontab == 4 {
-				usesInvalid = true
+			used[b.Crontab] = true
+			s := in.str(b.Crontab)
+			if parsable(s) && s != wsNorm(s) {
+				bindingNoncanonical = true
 			}
+			for _, o := range spelled {
+				if o.s != s && wsNorm(o.s) == wsNorm(s) {
+					if o.hook == h {
+						inOneHook = true
+					} else {
+						acrossHooks = true
+					}
+				}
+			}
+			spelled = append(spelled, hs{h, s})
+		}
+	}
+	usesInvalid, noncanonical, validityDiffers := false, false, false
+	for i := range used {
+		s := in.str(i)
+		if !parsable(s) {
+			usesInvalid = true
+			if parsable(wsNorm(s)) {
+				validityDiffers = true
+			}
+		} else if s != wsNorm(s) {
+			noncanonical = true
 		}
 	}
 	c.Tags = append(c.Tags, fmt.Sprintf("len:%02d", len(in.Ops)/4*4), fmt.Sprintf("hooks:%d", len(in.Hooks)), fmt.Sprintf("bindings:%d", nb))
 	if usesInvalid {
 		c.Tags = append(c.Tags, "unparsable-crontab")
 	}
+	if validityDiffers {
+		c.Tags = append(c.Tags, "spelling:unparsable-only-because-of-whitespace")
+	}
+	if noncanonical {
+		c.Tags = append(c.Tags, "spelling:noncanonical-whitespace")
+	} else {
+		c.Tags = append(c.Tags, "spelling:canonical-only")
+	}
+	if bindingNoncanonical {
+		c.Tags = append(c.Tags, "spelling:binding-with-noncanonical-crontab")
+	}
+	if inOneHook {
+		c.Tags = append(c.Tags, "spelling:ws-variants-within-one-hook")
+	}
+	if acrossHooks {
+		c.Tags = append(c.Tags, "spelling:ws-variants-across-hooks")
+	}
+	if obs != nil && len(obs.Extra) > 0 {
+		c.Tags = append(c.Tags, "implementation-used-a-string-not-in-the-input")
+	}
 	if dupIds {
 		c.Tags = append(c.Tags, "binding-ids-shared-or-duplicated")
 	}
-	hadCron, hadInfos, maxCron := false, false, 0
-	for _, s := range steps {
+	hadCron, hadInfos, hadTickTasks, maxCron := false, false, false, 0
+	for k, s := range steps {
 		if len(s.Cron) > 0 {
 			hadCron = true
 		}
@@ -314,12 +523,18 @@ func Render(in Input, obs *Observation, crash string) core.Case {
 		for _, f := range s.Fire {
 			if len(f.Infos) > 0 {
 				hadInfos = true
+				if k < len(in.Ops) && (in.Ops[k].Kind == "Tick" || in.Ops[k].Kind == "TickAll") {
+					hadTickTasks = true
+				}
 			}
 		}
 	}
 	c.Tags = append(c.Tags, fmt.Sprintf("max-cron-entries:%d", maxCron))
 	if hadInfos {
 		c.Tags = append(c.Tags, "firing-with-tasks")
+	}
+	if hadTickTasks {
+		c.Tags = append(c.Tags, "cron-job-run-with-tasks")
 	}
 	c.Nontrivial = len(in.Ops) >= 3 && len(kinds) >= 2 && hadCron
 	return c
@@ -329,7 +544,68 @@ func Render(in Input, obs *Observation, crash string) core.Case {
 
 type gen struct{ r *core.Rng }
 
-func (g *gen) hooks(collide bool, invalidPct int) [][]Binding {
+// table draws the crontab strings of one case: nValid parsable ones first, then nInvalid
+// unparsable ones.  spell = the case is about spellings: at least two spellings of one
+// schedule, the others spelled any way; otherwise canonical texts of different schedules.
+func (g *gen) table(spell bool, nInvalid int) (tbl []string, nValid int, focus []int) {
+	perm := func(n int) []int {
+		p := make([]int, n)
+		for i := range p {
+			p[i] = i
+		}
+		for i := n - 1; i > 0; i-- {
+			j := g.r.Intn(i + 1)
+			p[i], p[j] = p[j], p[i]
+		}
+		return p
+	}
+	fam := perm(len(families))
+	main := map[string]bool{}
+	if !spell {
+		for _, f := range fam[:3] {
+			tbl = append(tbl, families[f][0])
+		}
+	} else {
+		f := families[fam[0]]
+		sp := perm(len(f))
+		n := 2 + g.r.Intn(2)
+		if g.r.Chance(60) { // mostly the canonical text is among them
+			tbl = append(tbl, f[0])
+			n--
+		}
+		for _, k := range sp {
+			if n > 0 && !(k == 0 && tbl != nil) {
+				tbl = append(tbl, f[k])
+				n--
+			}
+		}
+		for _, s := range tbl {
+			main[s] = true
+		}
+		for _, o := range fam[1 : 2+g.r.Intn(2)] {
+			tbl = append(tbl, families[o][g.r.Intn(len(families[o]))])
+		}
+		// no fixed position for the canonical text
+		for i, j := range perm(len(tbl)) {
+			if i < j {
+				tbl[i], tbl[j] = tbl[j], tbl[i]
+			}
+		}
+	}
+	nValid = len(tbl)
+	for i, s := range tbl {
+		if main[s] {
+			focus = append(focus, i)
+		}
+	}
+	for _, k := range perm(len(unparsable))[:nInvalid] {
+		tbl = append(tbl, unparsable[k])
+	}
+	return tbl, nValid, focus
+}
+
+// focus: the spellings of the schedule a spelling case is about; bindings prefer them
+func (g *gen) hooks(collide bool, invalidPct, nValid, nAll int, focus []int) [][]Binding {
 	var hooks [][]Binding
 	id, nm := 10, 100
 	for h := 0; h < 1+g.r.Intn(3); h++ {
@@ -339,9 +615,12 @@ func (g *gen) hooks(collide bool, invalidPct int) [][]Binding {
 			if !(k > 0 && g.r.Chance(30)) { // 30%: the same binding name as the previous binding of this hook
 				nm++
 			}
-			b := Binding{Id: id, Crontab: 1 + g.r.Intn(3), Name: nm, AF: g.r.Bool(), Snaps: []int{}, Queue: g.r.Intn(3)}
-			if g.r.Chance(invalidPct) {
-				b.Crontab = 4
+			b := Binding{Id: id, Crontab: g.r.Intn(nValid), Name: nm, AF: g.r.Bool(), Snaps: []int{}, Queue: g.r.Intn(3)}
+			if len(focus) > 0 && g.r.Chance(60) {
+				b.Crontab = focus[g.r.Intn(len(focus))]
+			}
+			if nAll > nValid && g.r.Chance(invalidPct) {
+				b.Crontab = nValid + g.r.Intn(nAll-nValid)
 			}
 			if g.r.Chance(50) {
 				b.Group = 5 + g.r.Intn(2)
@@ -361,22 +640,26 @@ func (g *gen) hooks(collide bool, invalidPct int) [][]Binding {
 	return hooks
 }
 
-func (g *gen) ops(n, nHooks, maxC int) []Op {
+func (g *gen) ops(n, nHooks, nStrings int) []Op {
 	var ops []Op
 	for len(ops) < n {
 		k := g.r.Intn(100)
-		c, i, h := 1+g.r.Intn(maxC), 1+g.r.Intn(4), g.r.Intn(nHooks)
+		c, i, h := g.r.Intn(nStrings), 1+g.r.Intn(4), g.r.Intn(nHooks)
 		switch {
-		case k < 25:
+		case k < 22:
 			ops = append(ops, Op{Kind: "Add", C: c, I: i})
-		case k < 50:
+		case k < 44:
 			ops = append(ops, Op{Kind: "Remove", C: c, I: i})
-		case k < 65:
+		case k < 59:
 			ops = append(ops, Op{Kind: "Enable", H: h})
-		case k < 77:
+		case k < 70:
 			ops = append(ops, Op{Kind: "Disable", H: h})
-		default:
+		case k < 82:
 			ops = append(ops, Op{Kind: "Fire", C: c})
+		case k < 90:
+			ops = append(ops, Op{Kind: "Tick", N: g.r.Intn(4)})
+		default:
+			ops = append(ops, Op{Kind: "TickAll"})
 		}
 	}
 	return ops
@@ -384,51 +667,82 @@ func (g *gen) ops(n, nHooks, maxC int) []Op {
 
 func (g *gen) history(maxLen int, malformed bool) Input {
 	in := Input{}
+	spell := g.r.Chance(45)
 	if malformed {
-		in.Hooks = g.hooks(g.r.Bool(), 20)
-		in.Ops = g.ops(1+g.r.Intn(maxLen), len(in.Hooks), 4)
+		var nValid int
+		var focus []int
+		in.Strings, nValid, focus = g.table(spell, 1+g.r.Intn(2))
+		in.Hooks = g.hooks(g.r.Bool(), 20, nValid, len(in.Strings), focus)
 	} else {
-		in.Hooks = g.hooks(false, 0)
-		in.Ops = g.ops(1+g.r.Intn(maxLen), len(in.Hooks), 3)
+		var focus []int
+		in.Strings, _, focus = g.table(spell, 0)
+		in.Hooks = g.hooks(false, 0, len(in.Strings), len(in.Strings), focus)
 	}
+	in.Ops = g.ops(1+g.r.Intn(maxLen), len(in.Hooks), len(in.Strings))
 	return in
 }
 
 func Corpus() []Input {
-	bs := []Binding{{Id: 11, Crontab: 1, Name: 101, Snaps: []int{}}, {Id: 12, Crontab: 2, Name: 102, Group: 5, AF: true, Snaps: []int{101}, Queue: 3},
-		{Id: 13, Crontab: 1, Name: 103, Group: 5, Snaps: []int{101, 102}}}
-	other := []Binding{{Id: 21, Crontab: 1, Name: 201, Snaps: []int{}, Queue: 1}}
 	a := func(c, i int) Op { return Op{Kind: "Add", C: c, I: i} }
 	r := func(c, i int) Op { return Op{Kind: "Remove", C: c, I: i} }
 	en := func(h int) Op { return Op{Kind: "Enable", H: h} }
 	di := func(h int) Op { return Op{Kind: "Disable", H: h} }
 	f := func(c int) Op { return Op{Kind: "Fire", C: c} }
+	tick := func(n int) Op { return Op{Kind: "Tick", N: n} }
+	all := Op{Kind: "TickAll"}
+	// indices 0..3 of the first table play the part of the former crontab numbers 1..4
+	base := []string{"* * * * *", "*/5 * * * *", "0 * * * *", "not a crontab"}
+	bs := []Binding{{Id: 11, Crontab: 0, Name: 101, Snaps: []int{}}, {Id: 12, Crontab: 1, Name: 102, Group: 5, AF: true, Snaps: []int{101}, Queue: 3},
+		{Id: 13, Crontab: 0, Name: 103, Group: 5, Snaps: []int{101, 102}}}
+	other := []Binding{{Id: 21, Crontab: 0, Name: 201, Snaps: []int{}, Queue: 1}}
+	// spellings of "every minute": canonical, double space, leading blank, tab, trailing blank
+	sp := []string{"* * * * *", "*  * * * *", " * * * * *", "*\t* * * *", "* * * * * "}
 	return []Input{
 		// the non-vacuity example of C11_Properties.v
-		{Hooks: [][]Binding{{}}, Ops: []Op{a(1, 7), a(1, 8), a(1, 7), r(1, 7), r(1, 7), r(3, 9), a(4, 7)}},
-		{Hooks: [][]Binding{{}}, Ops: []Op{a(1, 7), a(1, 8), r(1, 7), r(1, 8), a(1, 8)}},
-		{Hooks: [][]Binding{bs}, Ops: []Op{en(0), di(0), en(0), f(1), f(2), f(3)}},
-		// two hooks share crontab 1; disabling one keeps the entry, disabling both removes it
-		{Hooks: [][]Binding{bs, other}, Ops: []Op{en(0), en(1), f(1), di(0), f(1), di(1), f(1), en(1), en(1), f(1)}},
+		{Strings: base, Hooks: [][]Binding{{}}, Ops: []Op{a(0, 7), a(0, 8), a(0, 7), r(0, 7), r(0, 7), r(2, 9), a(3, 7)}},
+		{Strings: base, Hooks: [][]Binding{{}}, Ops: []Op{a(0, 7), a(0, 8), r(0, 7), r(0, 8), a(0, 8)}},
+		{Strings: base, Hooks: [][]Binding{bs}, Ops: []Op{en(0), di(0), en(0), f(0), f(1), f(2), all, tick(0), tick(1), tick(2)}},
+		// two hooks share crontab 0; disabling one keeps the entry, disabling both removes it
+		{Strings: base, Hooks: [][]Binding{bs, other}, Ops: []Op{en(0), en(1), f(0), all, di(0), f(0), all, di(1), f(0), all, en(1), en(1), f(0), tick(0)}},
 		// removal of unknown pairs, unparsable crontab added and removed
-		{Hooks: [][]Binding{{}}, Ops: []Op{r(1, 1), a(4, 1), a(4, 2), r(4, 1), r(4, 2), a(1, 1), r(2, 1), r(1, 2), r(1, 1)}},
+		{Strings: base, Hooks: [][]Binding{{}}, Ops: []Op{r(0, 1), a(3, 1), a(3, 2), all, r(3, 1), r(3, 2), a(0, 1), r(1, 1), r(0, 2), r(0, 1)}},
 		// a raw Remove of a pair that belongs to an enabled binding
-		{Hooks: [][]Binding{{{Id: 1, Crontab: 1, Name: 101, Snaps: []int{}}}}, Ops: []Op{en(0), r(1, 1), f(1), a(1, 1), di(0)}},
+		{Strings: base, Hooks: [][]Binding{{{Id: 1, Crontab: 0, Name: 101, Snaps: []int{}}}}, Ops: []Op{en(0), r(0, 1), f(0), all, a(0, 1), all, di(0)}},
+		// the example ex_in of C11_Properties.v: a second hook spells the first one's crontab with a double space
+		{Strings: sp[:2], Hooks: [][]Binding{{{Id: 11, Crontab: 0, Name: 101, Snaps: []int{}}},
+			{{Id: 21, Crontab: 1, Name: 201, AF: true, Snaps: []int{101}, Queue: 2}, {Id: 22, Crontab: 0, Name: 202, Snaps: []int{}}}},
+			Ops: []Op{en(0), en(1), di(0), all, tick(0), tick(1), f(0), f(1)}},
+		// one hook, every binding spelled differently
+		{Strings: sp, Hooks: [][]Binding{{{Id: 11, Crontab: 0, Name: 101, Snaps: []int{}}, {Id: 12, Crontab: 1, Name: 102, Group: 5, Snaps: []int{101}, Queue: 1},
+			{Id: 13, Crontab: 2, Name: 103, AF: true, Snaps: []int{}, Queue: 2}, {Id: 14, Crontab: 3, Name: 104, Snaps: []int{102}}, {Id: 15, Crontab: 4, Name: 105, Snaps: []int{}}}},
+			Ops: []Op{en(0), all, tick(0), tick(4), f(1), f(3), di(0), all, en(0), all}},
+		// no binding uses the canonical text
+		{Strings: []string{"*  * * * * *", "\t*/5 * * * *"}, Hooks: [][]Binding{{{Id: 11, Crontab: 0, Name: 101, Snaps: []int{}, Queue: 1}}, {{Id: 21, Crontab: 1, Name: 201, Snaps: []int{}}}},
+			Ops: []Op{en(0), all, en(1), all, tick(1), di(0), all}},
+		// raw calls: the same id under two spellings; removing one spelling leaves the other
+		{Strings: sp, Hooks: [][]Binding{{}}, Ops: []Op{a(0, 7), a(1, 7), a(1, 8), r(0, 7), all, r(1, 7), r(0, 8), r(1, 8), a(4, 1), a(2, 1)}},
+		// validity depends on the spelling: "@hourly" parses, "@hourly " and " @hourly" do not
+		{Strings: []string{"@hourly", "@hourly ", " @hourly", "0 * * * *"}, Hooks: [][]Binding{{{Id: 11, Crontab: 0, Name: 101, Snaps: []int{}}, {Id: 12, Crontab: 1, Name: 102, Snaps: []int{}}}},
+			Ops: []Op{a(1, 1), a(0, 1), a(2, 1), all, en(0), all, f(1), r(0, 1), di(0), all}},
+		// a position that has no cron entry
+		{Strings: base, Hooks: [][]Binding{bs}, Ops: []Op{tick(0), all, en(0), tick(5), tick(2)}},
 	}
 }
 
 func exhaustive(maxLen int) []Input {
-	hook := []Binding{{Id: 1, Crontab: 1, Name: 101, Snaps: []int{}}, {Id: 3, Crontab: 2, Name: 103, Group: 5, AF: true, Snaps: []int{101}, Queue: 1}}
+	// two spellings of one schedule
+	tbl := []string{"* * * * *", "*  * * * *"}
+	hook := []Binding{{Id: 1, Crontab: 0, Name: 101, Snaps: []int{}}, {Id: 3, Crontab: 1, Name: 103, Group: 5, AF: true, Snaps: []int{101}, Queue: 1}}
 	alpha := []Op{
-		{Kind: "Add", C: 1, I: 1}, {Kind: "Add", C: 1, I: 2}, {Kind: "Add", C: 2, I: 1},
-		{Kind: "Remove", C: 1, I: 1}, {Kind: "Remove", C: 1, I: 2}, {Kind: "Remove", C: 2, I: 1},
-		{Kind: "Enable", H: 0}, {Kind: "Disable", H: 0}, {Kind: "Fire", C: 1},
+		{Kind: "Add", C: 0, I: 1}, {Kind: "Add", C: 0, I: 2}, {Kind: "Add", C: 1, I: 1},
+		{Kind: "Remove", C: 0, I: 1}, {Kind: "Remove", C: 0, I: 2}, {Kind: "Remove", C: 1, I: 1},
+		{Kind: "Enable", H: 0}, {Kind: "Disable", H: 0}, {Kind: "Fire", C: 0}, {Kind: "TickAll"},
 	}
 	var out []Input
 	var rec func(ops []Op)
 	rec = func(ops []Op) {
 		if len(ops) > 0 {
-			out = append(out, Input{Hooks: [][]Binding{hook}, Ops: append([]Op{}, ops...)})
+			out = append(out, Input{Strings: tbl, Hooks: [][]Binding{hook}, Ops: append([]Op{}, ops...)})
 		}
 		if len(ops) >= maxLen {
 			return
@@ -476,17 +790,19 @@ func Gen(r *core.Rng, tier string) ([]core.In[Input], bool) {
 
 var Driver = core.Driver[Input, Observation]{
 	Spec: core.Spec{Property: "C11", Imports: []string{"C11_Model", "C11_Spec", "C11_Corr"}, Corr: "C11_Corr", Triggers: nil, ShrinkKey: "ops",
-		Rule: "1-3 hooks (0-3 schedule bindings each: crontab, uuid-like id, name, group, allowFailure, snapshots, queue) (binding names repeat within a hook in 30% of the draws) with real ScheduleBindingsControllers sharing one real scheduleManager; " +
-			"operations Add/Remove of (crontab,id) over 3 crontabs x 4 ids directly on the manager, Enable/Disable of a hook's bindings, Fire of a crontab (CanHandleEvent/HandleEvent of every controller); " +
-			"after each operation: Entries, the cron entries registered and the crontab each sends when its job is run; the scheduler is never started; " +
-			"streams: corpus, random (length <=20, quick), malformed (unparsable crontab 'not a crontab', binding ids shared with the direct calls or duplicated), " +
-			"exhaustive (thorough: every sequence of <=5 operations over 9 operations on 2 crontabs x 2 ids and one hook); " +
+		Rule: "1-3 hooks (0-3 schedule bindings each: crontab STRING, uuid-like id, name, group, allowFailure, snapshots, queue) (binding names repeat within a hook in 30% of the draws) with real ScheduleBindingsControllers sharing one real scheduleManager; " +
+			"every case has its own table of 3-5 crontab strings drawn from 5 schedules x 4-6 spellings (single-spaced, double spaces, tabs, leading/trailing blanks, other text for the same schedule, letter case); 45% of the cases contain at least two spellings of one schedule (tags spelling:*); parsability is asked of the real cron.Parse; " +
+			"operations Add/Remove of (crontab,id) over the table x 4 ids directly on the manager, Enable/Disable of a hook's bindings, Fire of a string (CanHandleEvent/HandleEvent of every controller), " +
+			"Tick n (the job of the n-th registered cron entry is run, what it sends on the channel is dispatched like hook.Manager.HandleScheduleEvent does), TickAll (every registered cron entry once); " +
+			"after each operation: Entries, the cron entries registered and the string each sends when its job is run (strings not in the table are appended to it); the scheduler is never started; " +
+			"streams: corpus, random (length <=20, quick), malformed (1-2 unparsable strings, some unparsable only because of whitespace such as '@hourly '; binding ids shared with the direct calls or duplicated), " +
+			"exhaustive (thorough: every sequence of <=5 operations over 10 operations on 2 spellings of one schedule x 2 ids and one hook); " +
 			"non-trivial = >=3 operations of >=2 kinds with a cron entry registered at some point; distinct = distinct input text"},
 	Gen: Gen, Run: Run, Render: Render, PerShard: 1000, Workers: 8, CaseTimout: 10 * time.Second,
 	Extra: func() map[string]any {
 		return map[string]any{
-			"exhaustive_scope": "thorough: sum_{k=1..5} 9^k = 66429 operation sequences",
-			"not_driven":       "the cron library's clock (entries are fired by running their job directly), HookManager.HandleScheduleEvent and the task construction in operator.go:163-191 (modelled as task_of_info, not executed)",
+			"exhaustive_scope": "thorough: sum_{k=1..5} 10^k = 111110 operation sequences",
+			"not_driven":       "the cron library's clock (entries are fired by running their job directly), hook.Manager.HandleScheduleEvent itself (its loop - CanHandleEvent then HandleEvent per hook - is replayed by the driver on the real controllers) and the task construction in operator.go:163-191 (modelled as task_of_info, not executed)",
 		}
 	},
 }
